@@ -13,36 +13,6 @@ From Tickit Require Import RectDefs RBDefs RBSpec RBLemmas RBSpanProofs RBAbsLem
 Import ListNotations.
 Local Open Scope Z_scope.
 
-(* the positions written by a list of operations and the cursor afterwards, given the cursor
-   before (None = unknown); None if something is written with the cursor unknown *)
-Definition tpos := (Z * Z)%type.
-Definition cells_from (l c n : Z) : list tpos := map (pair l) (zseq c (Z.to_nat n)).
-
-Fixpoint track (cur : option tpos) (ops : list termop) : option (list tpos * option tpos) :=
-  match ops with
-  | [] => Some ([], cur)
-  | TGoto l c :: r => track (Some (l, c)) r
-  | TSetPen _ :: r => track cur r
-  | TPrint s :: r =>
-      match cur with
-      | None => None
-      | Some (l, c) =>
-          match track (Some (l, c + text_width s)) r with
-          | None => None
-          | Some (w, e) => Some (cells_from l c (text_width s) ++ w, e)
-          end
-      end
-  | TErase n mv :: r =>
-      match cur with
-      | None => None
-      | Some (l, c) =>
-          match track (if mv then Some (l, c + n) else None) r with
-          | None => None
-          | Some (w, e) => Some (cells_from l c n ++ w, e)
-          end
-      end
-  end.
-
 Lemma track_app : forall a b cur,
   track cur (a ++ b) =
   match track cur a with
@@ -60,8 +30,6 @@ Proof.
       destruct (track (if moveend then Some (l, c + n) else None) a) as [[w1 c1]|]; [|reflexivity].
       destruct (track c1 b) as [[w2 c2]|]; [|reflexivity]. now rewrite app_assoc.
 Qed.
-
-Definition is_skipc (c : cellc) : bool := match c with ASkip => true | _ => false end.
 
 (* the columns >= col of the row's pending cells *)
 Definition pending_cols (r : row) (col : Z) : list Z :=
